@@ -20,7 +20,7 @@ def check(tr):
     metric = scen["metrics"][0]
     max_t = s["max_t"]
     sync = kind == "sync_hb_bo"
-    policy = s.get("searcher_data", "rungs") if not sync else "rungs"
+    policy = s.get("searcher_data", "rungs")
     rung_levels = set(levels_from_sched(s)) | {max_t} if not sync else None
     base_levels = levels_from_sched(s) if not sync else []
     bracket_of = {}
@@ -101,11 +101,15 @@ def check(tr):
                 elif not close(v, conv(rep)):
                     bad("R1.value", "data set holds %r for trial %s level %s, reported %r (mode %s)" % (v, ts, l, rep, mode), c["s1"], mode=mode)
         # ---- R2 levels present = data policy (asynchronous Hyperband) ---------------------------
-        if not sync and kind != "hb_dyhpo":
+        if kind != "hb_dyhpo":
             for ts, lv in gp["obs"].items():
                 have = {int(l) for l in lv if l != "-"}
                 dl = delivered.get(ts, [])
-                if policy == "rungs":
+                if sync and policy == "rungs":
+                    # synchronous Hyperband: a trial's rung levels are the milestones it was told to run to and paused at
+                    allowed = set(decided_at.get(ts, ()))
+                    required = set(allowed)
+                elif policy == "rungs":
                     allowed = {l for l in dl if l in rung_levels}
                     required = set(allowed)
                 elif policy == "all":
